@@ -840,7 +840,7 @@ fn c19_one(ctx: &Ctx, t: usize, k: u64, frag: &mut Frag) {
     let c = case();
     let o = ops_of(t);
     let mut ord: u64 = 0;
-    let via = if sem::reaches_list_of_heap(&c.schema, &c.targets[t].shape) { "type-with-list-of-heap-owning-elements" } else { "type-without-such-list" };
+    let via = if sem::reaches_list_of_heap(&c.schema, &c.targets[t].shape, c.keep) { "type-with-list-of-heap-owning-elements" } else { "type-without-such-list" };
     for wp in [WP::Binary, WP::Compact] {
         let (x, base, faults) = fault_inputs(ctx, t, k, wp);
         let base_hex = hex(&base);
